@@ -117,6 +117,17 @@ def _one_impl(sc, idx: int, seed: int, with_ref: bool):
             fails.append((f"decrypt-raised:{type(e).__name__}", name + " " + str(e)[:80])); continue
         if o.plaintext != pt:
             fails.append(("plaintext-differs", f"{name} len {len(o.plaintext or b'')} vs {len(pt)}"))
+        if name in ("recipient0", "keyset"):
+            # what was returned belongs to the caller: editing it must not change a later decryption of the same token
+            snap = json.dumps(o.protected, sort_keys=True)
+            o.protected["injected"] = 1; o.protected.pop("enc", None)
+            try:
+                o2 = jwe.decrypt_compact(tok, key, registry=rg, **kw) if ser == "compact" else jwe.decrypt_json(tok, key, registry=rg, **kw)
+                if json.dumps(o2.protected, sort_keys=True) != snap or o2.plaintext != pt:
+                    fails.append(("second-decryption-differs-after-caller-edited-first-result", json.dumps(o2.protected)[:80]))
+                o = o2
+            except Exception as e:  # noqa
+                fails.append(("second-decryption-raised-after-caller-edited-first-result:" + type(e).__name__, name)); continue
         gp, gu, gr = given
         if any(o.protected.get(k) != v for k, v in gp.items()):
             fails.append(("protected-members-differ", json.dumps(o.protected)[:100]))
